@@ -106,7 +106,18 @@ def run_lines(binary, args, lines, timeout=600, env=None, cwd=None):
     return p.returncode, p.stdout.decode("utf-8", "replace").splitlines(), p.stderr.decode("utf-8", "replace")
 
 
-def run_lines_resilient(binary, args, lines, per_case_timeout=20, env=None, mem_kb=4 * 1024 * 1024, cwd=None):
+def run_lines_resilient(binary, args, lines, per_case_timeout=20, env=None, mem_kb=4 * 1024 * 1024, cwd=None,
+                         restart_every=1500):
+    """Chunked front end of _run_lines_resilient: a fresh child every `restart_every` cases, because a
+    long-lived harness process accumulates memory (abandoned coroutines keep their goroutines) and would
+    eventually die under ulimit -v, blaming an innocent case."""
+    out = []
+    for i in range(0, len(lines), restart_every):
+        out += _run_lines_resilient(binary, args, lines[i:i + restart_every], per_case_timeout, env, mem_kb, cwd)
+    return out
+
+
+def _run_lines_resilient(binary, args, lines, per_case_timeout=20, env=None, mem_kb=4 * 1024 * 1024, cwd=None):
     """Like run_lines, but survives a crash or hang of the child: the case being processed when
     the child died / stalled gets the pseudo-output '<id> CRASH <rc> <stderr tail hex>' or
     '<id> HANG', and the remaining cases are fed to a fresh child.  Requires that the child
